@@ -552,6 +552,15 @@ def range_member_signature(G, cycles, rel):
     cyc_cells = set()
     for ci in rel:
         cyc_cells.update(cycles[ci])
+    # (since the F-C10-2a fix the refusal needs the cut candidate itself to
+    # read the cyclic cell THROUGH a multi-cell rectangle in its lazy branch)
+    through_range = False
+    for ci in rel:
+        for u, v in G.cycle_edges(cycles[ci]):
+            if not G.strict(u, v) and any(o['multi'] for o in G.edge[u][v]):
+                through_range = True
+    if not through_range:
+        return False
     for owner, members, rect in G.ranges:
         if not (set(members) & cyc_cells):
             continue
